@@ -48,6 +48,8 @@ struct SchedOutcome {
 struct Extra {
     cap_override: Option<usize>,
     expected_output: Option<Vec<u8>>,
+    /// scenarios built on an input class with a recorded finding carry their own signature
+    sig_tag: Option<&'static str>,
 }
 
 fn explore_scenario(rep: &mut Reporter, scn: &Scn, extra: &Extra, bound: usize, max_exec: u64, label: &str) -> SchedOutcome {
@@ -130,7 +132,7 @@ fn explore_scenario(rep: &mut Reporter, scn: &Scn, extra: &Extra, bound: usize, 
         let b = it.next().unwrap();
         let diff = if a.0 .0 != b.0 .0 { first_diff_line(a.0 .0.as_deref().unwrap_or(b""), b.0 .0.as_deref().unwrap_or(b"")) } else { format!("filtered output files of {:?} vs {:?} bytes / any-errors flag {} vs {}", a.0 .2.as_ref().map(|f| f.len()), b.0 .2.as_ref().map(|f| f.len()), a.0 .1, b.0 .1) };
         rep.violation(Violation {
-            signature: format!("sched:output-depends-on-schedule:{}", if scn.mute { "muted" } else { "unmuted" }),
+            signature: format!("sched:output-depends-on-schedule:{}{}", extra.sig_tag.map(|t| format!("{t}:")).unwrap_or_default(), if scn.mute { "muted" } else { "unmuted" }),
             description: format!("{} distinct outcomes (statistics file, any-errors flag, filtered output) over the explored schedules of [{label}]; first difference: {diff}", outputs.len()),
             replay: json!({"scenario": label, "schedule_a": a.1, "schedule_b": b.1}),
         });
@@ -389,17 +391,29 @@ fn scenarios(tier: Tier) -> Vec<(String, Scn, Extra)> {
         }
         scenarios.push(("All mute=false 2 links x 1 HBF of system id 36 (not ITS), E10+E11 on every RDH, batch 2".into(), Scn { mode: Mode::All, mute: false, max_errors: 0, signal: false, cap: 2, input: Arc::new(bytes), scratch: scratch(), toml: false }, Extra::default()));
     }
+    // a data-format-0 stream in which one filler byte of the first word slot is not zero (payload byte 10) in the first
+    // packet of each link: the tool guesses the format from those bytes (known finding F13), cuts the payload into
+    // 10-byte words and places them with the 16-byte stride of the RDH's format - the offsets run into the NEXT packet,
+    // which belongs to the other link's validator: two threads report at the same offsets
+    {
+        let (mut per_link, _) = streams::multi_link_fmt(2, 1, 3, false, false, 0);
+        for pk in per_link.iter_mut() {
+            pk[0].packet.payload[10] = 0x01;
+        }
+        let bytes = fp_model::grammar::round_robin(&per_link).bytes();
+        scenarios.push(("AllIts mute=false 2 links x 1 HBF in data format 0, filler byte 10 of the first payload of each link set to 1, batch 2".into(), Scn { mode: Mode::AllIts, mute: false, max_errors: 0, signal: false, cap: 2, input: Arc::new(bytes), scratch: scratch(), toml: false }, Extra { sig_tag: Some("format-0-payload-cut-as-format-2"), ..Extra::default() }));
+    }
     // small worlds: every bounded queue holds one element, so that full queues (and whatever the code does about
     // them) take part; batches of 1 packet keep the reader ahead of the analysis
     for (mode, links, hbfs) in [(Mode::AllIts, 2usize, 2usize), (Mode::All, 3, 1)] {
         let (_, bytes) = streams::multi_link(links, hbfs, 0, true, false);
-        scenarios.push((format!("{:?} mute=false {links} links x {hbfs} HBF, E10+E11 on every RDH, batch 1, every bounded queue of capacity 1", mode), Scn { mode, mute: false, max_errors: 0, signal: false, cap: 1, input: Arc::new(bytes), scratch: scratch(), toml: false }, Extra { cap_override: Some(1), expected_output: None }));
+        scenarios.push((format!("{:?} mute=false {links} links x {hbfs} HBF, E10+E11 on every RDH, batch 1, every bounded queue of capacity 1", mode), Scn { mode, mute: false, max_errors: 0, signal: false, cap: 1, input: Arc::new(bytes), scratch: scratch(), toml: false }, Extra { cap_override: Some(1), expected_output: None, sig_tag: None }));
     }
     // filtered writing: the output file is part of the outcome and must hold exactly the selected link's packets
     for (link, cap_override) in [(0u8, None), (1u8, Some(1usize))] {
         let (per_link, bytes) = streams::multi_link(2, 2, 0, false, false);
         let want: Vec<u8> = per_link[link as usize].iter().flat_map(|p| p.packet.bytes()).collect();
-        scenarios.push((format!("filtered writing --filter-link {link} -o file, 2 links x 2 HBFs, batch 1, queue capacity {:?}", cap_override), Scn { mode: Mode::Write(link), mute: false, max_errors: 0, signal: false, cap: 1, input: Arc::new(bytes), scratch: scratch(), toml: false }, Extra { cap_override, expected_output: Some(want) }));
+        scenarios.push((format!("filtered writing --filter-link {link} -o file, 2 links x 2 HBFs, batch 1, queue capacity {:?}", cap_override), Scn { mode: Mode::Write(link), mute: false, max_errors: 0, signal: false, cap: 1, input: Arc::new(bytes), scratch: scratch(), toml: false }, Extra { cap_override, expected_output: Some(want), sig_tag: None }));
     }
     scenarios
 }
